@@ -4,7 +4,7 @@
 
 // ===================================================================================================
 // property checks; each returns PASS/FAIL/DISCARD for one case
-enum PropId { C01, C02, C05, C08, C09, C10, C11, C16, C04G, C12S };
+enum PropId { C01, C02, C05, C08, C09, C10, C11, C16, C04G, C12S, C02R };
 
 template<class TT>
 static Verdict check_case(PropId prop, const GCase& c, Stats& st)
@@ -19,6 +19,9 @@ static Verdict check_case(PropId prop, const GCase& c, Stats& st)
     // C12s: "stack sizes ... are large enough for every input": the value oracle of C02 on inputs that are much deeper / longer than any initial reservation
     const bool only_deep = prop == C12S;
     if (only_deep) prop = C02;
+    // C02r: C02's parenthesis "(except nodes later discarded by error recovery)": in a parse that recovered, the functors of the nodes that stay get exactly the
+    // values of their children in the derivation with the error symbol; the recovery oracle of C08 serves it (same grammars, counted under C02)
+    if (prop == C02R) prop = C08;
     bool uses_err = g.uses_error();
     if (uses_err && (prop == C01 || prop == C09 || prop == C05)) return Verdict::discard("uses-error");
     if (!uses_err && prop == C08) return Verdict::discard("no-error-rule");
@@ -546,7 +549,7 @@ struct GP
     using Case = GCase;
     static const char* id()
     {
-        switch (PROP) { case C01: return "C01"; case C02: return "C02"; case C05: return "C05"; case C08: return "C08"; case C09: return "C09"; case C10: return "C10"; case C11: return "C11"; case C04G: return "C04g"; case C12S: return "C12s"; default: return "C16"; }
+        switch (PROP) { case C01: return "C01"; case C02: return "C02"; case C05: return "C05"; case C08: return "C08"; case C09: return "C09"; case C10: return "C10"; case C11: return "C11"; case C04G: return "C04g"; case C12S: return "C12s"; case C02R: return "C02r"; default: return "C16"; }
     }
     static Case gen(Choice& ch)
     {
@@ -555,7 +558,7 @@ struct GP
         case C01: return gen_case(ch, gg::CONFLICT_FREE, 6, false, false);
         case C02: return gen_case(ch, gg::CONFLICT_FREE, 12, false, false, true);
         case C05: return gen_case(ch, gg::PRECEDENCE, 16, false, false);
-        case C08: return gen_case(ch, gg::RECOVERY, 14, true, false);
+        case C08: case C02R: return gen_case(ch, gg::RECOVERY, 14, true, false);
         case C09: return gen_case(ch, gg::CONFLICT_FREE, 8, true, true);
         case C10: return gen_case(ch, ch.chance(1, 2) ? gg::RECOVERY : gg::CONFLICT_FREE, 12, true, true);   // positions after recovery-skipped terms too
         case C11: return gen_case(ch, gg::ANY, 4, false, false);
@@ -1237,6 +1240,7 @@ int main(int argc, char** argv)
         else if (a.prop == "C16") rc = eng::run_property<GP<C16>>(a);
         else if (a.prop == "C04g") rc = eng::run_property<GP<C04G>>(a);
         else if (a.prop == "C12s") rc = eng::run_property<GP<C12S>>(a);
+        else if (a.prop == "C02r") rc = eng::run_property<GP<C02R>>(a);
         else { fprintf(stderr, "unknown --prop %s\n", a.prop.c_str()); rc = 2; }
     });
     return rc;
